@@ -275,6 +275,14 @@ func fresh(s: i32) => i32 {
 	return 0
 }
 
+// dropall discards every map (C12: everything they held must be reclaimed).
+#wa:export dropall
+func dropall() {
+	for i := range ms {
+		ms[i] = make(map[%s]%s)
+	}
+}
+
 #wa:export alias
 func alias(s: i32, t: i32) => i32 {
 	ms[s] = ms[t]
@@ -405,6 +413,18 @@ func seenAt(i: i32) => i32 {
 func main {
 	setup()
 }
-`, k.typ, v.typ)
+`, k.typ, v.typ, k.typ, v.typ)
 	return b.String()
 }
+
+// NDrivers is the number of (key kind, value kind) drivers.
+func NDrivers() int { return len(keyKinds) * len(valKinds) }
+
+// DriverSource returns the source and a description of driver id.
+func DriverSource(id int) (src, desc string) {
+	k := keyKinds[id%len(keyKinds)]
+	v := valKinds[id/len(keyKinds)%len(valKinds)]
+	return Source(k, v, slots, poolMax), "map[" + k.name + "]" + v.name
+}
+
+const Slots = slots
